@@ -173,12 +173,14 @@ def cliRecipientParse {Key : Type} (parsePlugin parseX25519 parseSsh : Bytes →
   else if isPrefix pfxSsh l then parseSsh l
   else none
 
-/-- the condition under which `parseRecipientsFile` skips a line that failed
-    to parse: `sshKeyType` recognises it, and its type is not one age supports
-    or it is a well-formed authorized-keys line all the same -/
+/-- the condition under which `parseRecipientsFile` skips (with a warning) a line
+    that failed to parse: `sshKeyType` recognises it, and either its type is not
+    one age supports, or it is `ssh-rsa` and `ssh.ParseAuthorizedKey` accepts the
+    line all the same (a well-formed key age refuses: too small). A failing
+    `ssh-ed25519` line is never skipped. -/
 def skipCond (sniffSsh : Bytes → Option Bytes) (sshValid : Bytes → Bool) (l : Bytes) : Bool :=
   match sniffSsh l with
-  | some t => (t != sshRsa && t != sshEd25519) || sshValid l
+  | some t => (t != sshRsa && t != sshEd25519) || (t == sshRsa && sshValid l)
   | none => false
 
 /-- loop body of cmd/age `parseRecipientsFile` -/
